@@ -527,7 +527,7 @@ func checkC07Parent(x *e1ctx) {
 		if !ok || len(ret.Results) != 2 {
 			continue
 		}
-		if isNilConst(ret.Results[1]) {
+		if isNilConst(retVal(ret, 1)) {
 			continue
 		}
 		nRet++
